@@ -22,7 +22,7 @@ from .common import Sim, SimEndpoint, violation, finish, set_knob, NEVER_FLUSH, 
 ID = "C19"
 LEVEL = "exploration"
 HAS_CLOCK = False
-COUNTS = {"quick": 24, "thorough": 1200}
+COUNTS = {"quick": 24, "thorough": 1600}
 WALL = {"quick": 900, "thorough": 7 * 3600}
 SHRINK_WALL = {"quick": 150, "thorough": 900}
 SELFTEST_N = {"quick": 4, "thorough": 16}
